@@ -399,6 +399,102 @@ def parse_call_arguments(fn: ast.FunctionDef) -> list[str]:
     return out
 
 
+# ---------------------------------------------------------------- refusals: every `raise` with its guarding conditions
+def _own_exprs(st: ast.stmt) -> list[ast.AST]:
+    """the expressions evaluated by the statement itself (not by the blocks nested in it)"""
+    if isinstance(st, (ast.If, ast.While)):
+        return [st.test]
+    if isinstance(st, ast.For):
+        return [st.iter]
+    if isinstance(st, ast.With):
+        return [i.context_expr for i in st.items]
+    if isinstance(st, ast.Try):
+        return []
+    if isinstance(st, (ast.FunctionDef, ast.AsyncFunctionDef, ast.ClassDef)):
+        return []
+    return [st]
+
+
+def _calls(nodes: list[ast.AST]) -> list[ast.Call]:
+    out = []
+    for n in nodes:
+        out += [c for c in ast.walk(n) if isinstance(c, ast.Call) and not isinstance(c, ast.Lambda)]
+    return out
+
+
+class Refusals:
+    """walk of a function body in source order with the stack of enclosing conditions; `raise` statements of module-level helpers
+    called on the way are inlined under the conditions of the call site (one level deep, helpers of helpers too, no recursion)"""
+
+    def __init__(self, fns: dict[str, ast.FunctionDef]) -> None:
+        self.fns = fns
+        self.helpers = {n for n, f in fns.items() if n != "generate" and any(isinstance(x, ast.Raise) for x in ast.walk(f))}
+        self.rows: list[tuple[str, str, str, list[str], bool, bool]] = []
+        self.seen_parse = False
+        self.seen_write = False
+
+    def message(self, block: list[ast.stmt], i: int, exc: ast.AST | None) -> tuple[str, str]:
+        if exc is None:
+            return "re-raise", ""
+        name = dotted(exc.func) if isinstance(exc, ast.Call) else dotted(exc)
+        arg = exc.args[0] if isinstance(exc, ast.Call) and exc.args else None
+        if isinstance(arg, ast.Name):
+            for prev in reversed(block[:i]):
+                if isinstance(prev, ast.Assign) and any(ast.unparse(t) == arg.id for t in prev.targets):
+                    arg = prev.value
+                    break
+        if arg is None:
+            return name, ""
+        return name, (const_str(arg) if const_str(arg) is not None else ast.unparse(arg))
+
+    def leaf(self, fn: str, st: ast.stmt, conds: list[str], depth: int) -> None:
+        own = _own_exprs(st)
+        for c in _calls(own):
+            nm = dotted(c.func)
+            if nm in self.helpers and nm != fn and depth < 3:
+                self.block(nm, self.fns[nm].body, conds, depth + 1)
+            if fn == "generate" and nm == "parser.parse":
+                self.seen_parse = True
+        if fn == "generate" and own and not isinstance(st, (ast.If, ast.While, ast.For, ast.With)) and has_fs_effect([st]):
+            self.seen_write = True
+
+    def block(self, fn: str, stmts: list[ast.stmt], conds: list[str], depth: int = 0) -> None:
+        for i, st in enumerate(stmts):
+            if isinstance(st, (ast.FunctionDef, ast.AsyncFunctionDef, ast.ClassDef)):
+                continue
+            self.leaf(fn, st, conds, depth)
+            if isinstance(st, ast.Raise):
+                exc, msg = self.message(stmts, i, st.exc)
+                self.rows.append((fn, exc, msg, list(conds), self.seen_parse, not self.seen_write))
+            elif isinstance(st, ast.If):
+                t = ast.unparse(st.test)
+                self.block(fn, st.body, [*conds, t], depth)
+                self.block(fn, st.orelse, [*conds, f"not ({t})"], depth)
+            elif isinstance(st, (ast.For, ast.While)):
+                self.block(fn, st.body, conds, depth)
+                self.block(fn, st.orelse, conds, depth)
+            elif isinstance(st, ast.With):
+                if fn == "generate" and any(has_fs_effect([ast.Expr(i.context_expr)]) for i in st.items):
+                    self.seen_write = True
+                self.block(fn, st.body, conds, depth)
+            elif isinstance(st, ast.Try):
+                self.block(fn, st.body, conds, depth)
+                for h in st.handlers:
+                    self.block(fn, h.body, [*conds, "except " + (ast.unparse(h.type) if h.type else "<any>")], depth)
+                self.block(fn, st.orelse, conds, depth)
+                self.block(fn, st.finalbody, conds, depth)
+
+
+def refusals() -> list[tuple[str, str, str, list[str], bool, bool]]:
+    """(function, exception, message, guarding conditions in order, after parser.parse()?, before the first file-system effect?)
+    for every `raise` reachable from `generate()` in `__init__.py`"""
+    tree = ast.parse(SRC.read_text())
+    fns = {n.name: n for n in tree.body if isinstance(n, ast.FunctionDef)}
+    r = Refusals(fns)
+    r.block("generate", fns["generate"].body, [])
+    return r.rows
+
+
 def tables():
     tree = ast.parse(SRC.read_text())
     fns = {n.name: n for n in tree.body if isinstance(n, ast.FunctionDef)}
@@ -480,6 +576,15 @@ def generate() -> str:
         "/-- the arguments `generate()` passes to `parser.parse(…)` (`<positional>` / keyword names) -/\ndef parseCallArguments : List String :=\n  ["
         + ", ".join(lean_string(a) for a in parse_call_arguments(gen_fn))
         + "]\n"
+    )
+    rows = ",\n   ".join(
+        f"⟨{lean_string(fn)}, {lean_string(exc)}, {lean_string(msg)}, [" + ", ".join(lean_string(c) for c in conds) + f"], {'true' if ap else 'false'}, {'true' if bw else 'false'}⟩"
+        for fn, exc, msg, conds, ap, bw in refusals()
+    )
+    out.append(
+        "/-- every `raise` reachable from `generate()` (helpers of `__init__.py` inlined under the call site's conditions): function, exception,\n"
+        "message, guarding conditions in order, after `parser.parse()`?, before the first file-system effect? -/\n"
+        f"def refusals : List Refusal :=\n  [{rows}]\n"
     )
     out.append("end Dcg.Gen.GenerateSteps")
     return "\n".join(out) + "\n"
